@@ -1,0 +1,7 @@
+//go:build !verif
+
+package goatlang
+
+const verifBudget = false
+
+func (v *VM) verifTick() {}
